@@ -31,5 +31,7 @@ def run(ctx, rep):
     rep.run(RX.rule_filter_polarities, ctx, rep, "Q5")
     rep.run(RX.rule_names_confirmed, ctx, rep, "Q5")
     rep.run(RX.rule_extracted_elements_used, ctx, rep, "Q7")
+    rep.run(RX.rule_counter_key_identity, ctx, rep, "Q8")
+    rep.run(RF.rule_no_shared_state, ctx, rep, "Q9", packages=("gtwrap/xml_parser",))
     rep.run(RX.rule_docstring_untouched, ctx, rep, "Q6")
     rep.run(RF.rule_locals_defined, ctx, rep, "U1", packages=("gtwrap/xml_parser", "gtwrap/pybind_wrapper.py"), min_functions=3)
